@@ -67,6 +67,28 @@ def allowed_effects_rule(prog, res):
                  function=pg.sig, expr='effects')
     else:
         res.ok('effects', 'Parameters::group(const Group&)', pg.loc(), 'append, or parameter-by-parameter merge into the matched group', function=pg.sig, expr='effects')
+    # the merge hands over every parameter of the incoming group: the loop runs over the ARGUMENT's parameters
+    from loops import loops_around
+    Rpg = Renderer(pg)
+    nm = 0
+    for c in pg.calls():
+        if c['callee']['qname'] == G + '::parameter' and c['callee'].get('nparams') == 1 and len(pg.call_args(c)) == 1:
+            a0 = Rpg.render(pg.call_args(c)[0])
+            mm = re.match(r'^arg0\.(?:parameter\(local:(\w+)\)|_parameters\[local:(\w+)\])$', a0)
+            if not mm:
+                continue
+            nm += 1
+            iv = mm.group(1) or mm.group(2)
+            la = [l for l in loops_around(pg, c['id'], Rpg) if l.get('name') == iv]
+            if not la:
+                res.undecided('effects', 'Parameters::group merge loop', pg.loc(c['id']), 'the loop that walks the incoming parameters is not a counted loop the rule reads [shape not read by the rule]', function=pg.sig, expr='merge-loop')
+            elif re.sub(r'^\(unsigned long\)', '', la[0]['bound']) in ('arg0._parameters.size', 'arg0.nbParameters()'):
+                res.ok('effects', 'Parameters::group merge loop', pg.loc(c['id']), 'one hand-over per parameter of the incoming group', function=pg.sig, expr='merge-loop')
+            elif re.search(r'\.size$|nbParameters\(\)$', la[0]['bound']):
+                res.viol('effects', 'Parameters::group merge loop', pg.loc(c['id']), 'the merge reads arg0.parameter(%s) in a loop bounded by %s, not by the number of parameters of the incoming group: parameters are left out '
+                         '(or read past the end) whenever the two groups differ in size' % (iv, la[0]['bound']), function=pg.sig, expr='merge-loop', sure=True)
+            else:
+                res.undecided('effects', 'Parameters::group merge loop', pg.loc(c['id']), 'merge loop bounded by %s [shape not read by the rule]' % la[0]['bound'], function=pg.sig, expr='merge-loop')
     cp = prog.fn('ezc3d::c3d::parameter', nparams=2)
     hdr = {fl['name'] for fl in prog.classes['ezc3d::Header']['fields']}
     allowed_cp = {('this', ('_parameters',) + e[1], e[2]) for e in allowed_pg} | {('this', ('_parameters', '_groups', '[]') + e[1], e[2]) for e in allowed_gp}
